@@ -60,7 +60,8 @@ RULE = ('cases: version-definition / version-requirement sections with 0..14 ent
         'model); '
         'version-symbol tables of 0..300 symbols with arbitrary index/hidden bit, reserved values, strides >= entry size, '
         'over symbol tables of the same or a larger (0..4 more) symbol count; '
-        'both classes and byte orders, sections and header table in random file order at unaligned offsets, names 0..130 '
+        'both classes and byte orders, EI_OSABI among SYSV/Linux/Solaris/FreeBSD/OpenBSD/ARM/standalone/unknown, the '
+        'image handed to ELFFile as io.BytesIO or (every third image) as an mmap.mmap, sections and header table in random file order at unaligned offsets, names 0..130 '
         'bytes of 1-4 byte UTF-8, string tables with or WITHOUT a leading NUL (a non-empty name at offset 0, name '
         'fields equal to 0 drawn); a depth-and-size stream (per kind one entry with ~1010 (thorough ~3000) auxiliaries and '
         'one chain of as many single-auxiliary entries, the implementation observed under CPython\'s default '
@@ -75,6 +76,9 @@ RULE = ('cases: version-definition / version-requirement sections with 0..14 ent
 
 SHT = {'null': 0, 'strtab': 3, 'symtab': 2, 'dynsym': 11, 'verdef': 0x6ffffffd, 'verneed': 0x6ffffffe,
        'versym': 0x6fffffff, 'progbits': 1}
+# e_ident[EI_OSABI]: the version sections are read the same way whatever the OS/ABI byte says (SYSV, Linux, Solaris
+# - whose SUNW version sections have the same types and layouts -, FreeBSD, OpenBSD, ARM, standalone, unknown)
+OSABIS = [0, 0, 0, 3, 6, 6, 9, 12, 64, 97, 255, 0x2a]
 MACHINES = [62, 3, 21, 22, 0, 0x9999]        # no private sh_type table (x86-64, i386, PPC64, S390, none, unknown)
 SIZES = {'verdef': 20, 'verdaux': 8, 'verneed': 16, 'vernaux': 16}
 INTERESTING_IDX = [0, 0, 1, 1, 2, 2, 3, 4, 5, 6, 0x8001, 0x8002, 0x8003, 0x7fff, 0x8000, 0xffff, 0xff00, 0xff01]
@@ -244,7 +248,7 @@ def _gen_chain_case(rng, kind, big, cfg=None, tab=None, counts=None, mode=None):
             entries.append([rng.choice([1, 1, 1, rng.getrandbits(16)]), foff, aux, nxt, fstr, auxs])
     flavour = 'plain'
     # an entry whose auxiliary pointer lands inside a LATER entry's chain (shared auxiliaries)
-    if n >= 2 and rng.random() < 0.15:
+    if n >= 2 and given is None and rng.random() < 0.15:
         i = rng.randint(1, n - 1)
         j = rng.randint(0, i - 1)
         k = rng.randint(0, counts[i] - 1)
@@ -273,7 +277,7 @@ def _gen_chain_case(rng, kind, big, cfg=None, tab=None, counts=None, mode=None):
     if len(idxs) > 14:
         idxs = sorted(rng.sample(idxs, 14))
     plan = _file_plan(rng, ['shstr', 'target', 'strtab'])
-    return [le, is64, machine, entries, bg, strtab, plan, idxs, ['none'], mode + '/' + flavour]
+    return [le, is64, machine, entries, bg, strtab, plan, idxs, ['none'], mode + '/' + flavour, rng.choice(OSABIS)]
 
 
 def _gen_long_case(rng, kind, K, M):
@@ -439,7 +443,8 @@ def _gen_versym_case(rng, big, cfg=None, tab=None):
     sym_bg = _garbage(rng, (n + sym_extra) * sym_ent)
     symtype = SHT['dynsym'] if rng.random() < 0.8 else SHT['symtab']
     plan = _file_plan(rng, ['shstr', 'target', 'symtab', 'strtab'])
-    return [le, is64, machine, entries, vs_ent, sym_ent, vs_bg, sym_bg, strtab, symtype, plan, ['none']]
+    return [le, is64, machine, entries, vs_ent, sym_ent, vs_bg, sym_bg, strtab, symtype, plan, ['none'],
+            rng.choice(OSABIS)]
 
 
 def _malform_versym(rng, case):
@@ -501,7 +506,7 @@ def _gen_combo_case(rng, big):
     return [cfg[0], cfg[1], cfg[2],
             [d[3], d[4], d[5], d[7]], [n[3], n[4], n[5], n[7]],
             [v[3], v[4], v[5], v[6], v[7], v[8], v[9]],
-            plan, order, how, tabs, ['none']]
+            plan, order, how, tabs, ['none'], rng.choice(OSABIS)]
 
 
 def _malform_combo(rng, case):
@@ -578,9 +583,9 @@ SHSTR_NAMES = {'shstr': b'.shstrtab', 'strtab': b'.dynstr', 'symtab': b'.dynsym'
 
 class _Image:
     """file plan -> section offsets; the header bytes come from the driver in a second round"""
-    def __init__(self, le, is64, machine, plan, secs, cut=0):
+    def __init__(self, le, is64, machine, plan, secs, cut=0, osabi=0):
         # secs: role -> dict(type, data, link_role, info, entsize, name)
-        self.le, self.is64, self.machine = le, is64, machine
+        self.le, self.is64, self.machine, self.osabi = le, is64, machine, osabi
         sec_order, file_order, gaps = plan
         self.roles = ['null'] + list(sec_order)
         self.index = {r: i for i, r in enumerate(self.roles)}
@@ -617,7 +622,7 @@ class _Image:
     def header_reqs(self):
         le, is64 = self.le, self.is64
         reqs = [['enc', le, is64, 'Ehdr',
-                 [b'\x7fELF', 2 if is64 else 1, 1 if le else 2, 1, 0, 0, b'\0' * 7, 3, self.machine, 1, 0, 0, self.shoff, 0,
+                 [b'\x7fELF', 2 if is64 else 1, 1 if le else 2, 1, self.osabi, 0, b'\0' * 7, 3, self.machine, 1, 0, 0, self.shoff, 0,
                   self.ehsize, 0, 0, self.shentsize, len(self.roles), self.index['shstr']]]]
         for r in self.roles:
             if r == 'null':
@@ -684,6 +689,18 @@ def _nm(s):
     return 'none' if s is None else s.encode('utf-8')
 
 
+def _stream(img):
+    """the library reads any seekable binary stream: two images out of three are handed over as io.BytesIO, the third
+    as a memory map (mmap.mmap, anonymous) - chosen by the image itself, so a replay sees the same stream kind"""
+    if len(img) % 3 == 0:
+        import mmap
+        m = mmap.mmap(-1, len(img))
+        m.write(img)
+        m.seek(0)
+        return m
+    return io.BytesIO(img)
+
+
 def _chain_opener(kind, img, n, elf=None):
     """() -> section object n as a GNUVerDef/GNUVerNeedSection; from a fresh ELFFile, or from the given one"""
     from elftools.elf.elffile import ELFFile
@@ -692,7 +709,7 @@ def _chain_opener(kind, img, n, elf=None):
     tag = 'not-a-' + cls.__name__
 
     def open_sec():
-        f = elf if elf is not None else ELFFile(io.BytesIO(img))
+        f = elf if elf is not None else ELFFile(_stream(img))
         sec = f.get_section(n)
         if not isinstance(sec, cls):
             raise type(tag, (Exception,), {})()
@@ -750,7 +767,7 @@ def _versym_opener(img, n, elf=None):
     from elftools.elf.gnuversions import GNUVerSymSection
 
     def open_sec():
-        f = elf if elf is not None else ELFFile(io.BytesIO(img))
+        f = elf if elf is not None else ELFFile(_stream(img))
         sec = f.get_section(n)
         if not isinstance(sec, GNUVerSymSection):
             raise type('not-a-GNUVerSymSection', (Exception,), {})()
@@ -985,7 +1002,8 @@ def _evaluate(ctx, cases):
                                    name=SHSTR_NAMES[base]),
                     'strtab': dict(type=mal[1] if mal[0] == 'linktype' else SHT['strtab'], data=strtab,
                                    name=SHSTR_NAMES['strtab'])}
-            im = _Image(le, is64, machine, plan, secs, cut=mal[1] if mal[0] == 'cut' else 0)
+            im = _Image(le, is64, machine, plan, secs, cut=mal[1] if mal[0] == 'cut' else 0,
+                        osabi=c[10] if len(c) > 10 else 0)
         else:
             entries, vs_ent, sym_ent, vs_bg, sym_bg, strtab, symtype, plan, mal = c[3:12]
             vbuf = bytearray(vs_bg)
@@ -1010,7 +1028,8 @@ def _evaluate(ctx, cases):
                     'target': tsec, 'symtab': ssec,
                     'strtab': dict(type=mal[1] if mal[0] == 'strtype' else SHT['strtab'], data=strtab,
                                    name=SHSTR_NAMES['strtab'])}
-            im = _Image(le, is64, machine, plan, secs, cut=mal[1] if mal[0] == 'cut' else 0)
+            im = _Image(le, is64, machine, plan, secs, cut=mal[1] if mal[0] == 'cut' else 0,
+                        osabi=c[12] if len(c) > 12 else 0)
         hr = im.header_reqs()
         hspans.append((len(hreqs), len(hreqs) + len(hr)))
         hreqs += hr
@@ -1067,6 +1086,8 @@ def _evaluate(ctx, cases):
             model, spec = model + [model[0]], spec + [spec[0]]
         ctx.bump('class/order', ('64' if c[1] else '32') + ('LE' if c[0] else 'BE'))
         ctx.bump('in_domain', kind + ':' + str(in_domain))
+        ctx.bump('stream', 'mmap' if len(img) % 3 == 0 else 'BytesIO')
+        ctx.bump('EI_OSABI', img[7])
         if not malformed and not in_domain:
             ctx.bump('generator_left_domain', kind)
         if not in_domain:
@@ -1085,7 +1106,7 @@ COMBO_NAMES = {'shstr': b'.shstrtab', 'vdef': b'.gnu.version_d', 'vneed': b'.gnu
 def _impl_combo(img, index, order, how, d_idxs, n_idxs, deferred):
     """ONE ELFFile; the three sections are instantiated in [order], only then observed (in the same order)"""
     from elftools.elf.elffile import ELFFile
-    elf = impl_call(lambda: ELFFile(io.BytesIO(img)))
+    elf = impl_call(lambda: ELFFile(_stream(img)))
     if isinstance(elf, list):
         return {r: elf for r in order}
     openers = {'vdef': _chain_opener('verdef', img, index['vdef'], elf),
@@ -1171,7 +1192,7 @@ def _evaluate_combo(ctx, cases):
                 'strd': dict(type=stype('strd'), data=c[3][2], name=COMBO_NAMES['strd']),
                 'strn': dict(type=stype('strn'), data=c[4][2], name=COMBO_NAMES['strn']),
                 'strs': dict(type=stype('strs'), data=s_strtab, name=COMBO_NAMES['strs'])}
-        im = _Image(le, is64, machine, c[6], secs)
+        im = _Image(le, is64, machine, c[6], secs, osabi=c[11] if len(c) > 11 else 0)
         hr = im.header_reqs()
         hspans.append((len(hreqs), len(hreqs) + len(hr)))
         hreqs += hr
@@ -1214,6 +1235,8 @@ def _evaluate_combo(ctx, cases):
             model_f = _replace_invalid_utf8(model_f)
         ctx.bump('in_domain', kind + ':' + str(in_domain))
         ctx.bump('class/order', ('64' if c[1] else '32') + ('LE' if c[0] else 'BE'))
+        ctx.bump('stream', 'mmap' if len(img) % 3 == 0 else 'BytesIO')
+        ctx.bump('EI_OSABI', img[7])
         ctx.bump('combo_tables', c[9])
         ctx.bump('combo_instantiation', how + ':' + '>'.join(order))
         if not malformed and not in_domain:
